@@ -11,6 +11,17 @@ for d in sorted(os.listdir(ROOT)):
         dst=f'/verif/seeded/{key}'
         os.makedirs(dst,exist_ok=True)
         shutil.copy(f'{src}/{m}.diff', f'{dst}/patch.diff')
+        # a patch written against an earlier HEAD (before a later fix commit) is re-based so that
+        # `git -C /repo apply` works on the current tree
+        iso=os.environ.get('ISO','/tmp/iso')+'/repo'
+        if os.path.isdir(iso):
+            subprocess.run(['git','-C',iso,'reset','-q','--hard'])
+            if subprocess.run(['git','-C',iso,'apply','--check',f'{dst}/patch.diff'],capture_output=True).returncode!=0:
+                if subprocess.run(['git','-C',iso,'apply','-3',f'{dst}/patch.diff'],capture_output=True).returncode==0:
+                    d2=subprocess.run(['git','-C',iso,'diff','HEAD'],capture_output=True,text=True).stdout
+                    open(f'{dst}/patch.diff','w').write(d2)
+                    print(key,'patch re-based onto the current HEAD')
+                subprocess.run(['git','-C',iso,'reset','-q','--hard'])
         shutil.copy(f'{src}/{m}_demo.rs', f'{dst}/demo.rs')
         agent=json.load(open(f'{src}/{m}.json'))
         ck=f'/tmp/seedchk/{PFX}{d}-{m}.result.json'
@@ -37,6 +48,7 @@ for d in sorted(os.listdir(ROOT)):
             "existing_suite_with_patch": [f"{a} passed / {b} failed" for a,b in suite if a!='0'],
             "demo_with_patch": conf.get('demo_with_patch','').strip(),
             "demo_without_patch": conf.get('demo_without_patch','').strip(),
+            "demo_cargo_features": conf.get('demo_features','').strip(),
           },
           "check_result": {
             "tier": tier,
